@@ -23,7 +23,15 @@ import (
 // from one of these, seeded from VERIF_SEED, so a disagreement replays exactly.
 type Rand struct{ s uint64 }
 
-func NewRand(seed uint64) *Rand { return &Rand{s: seed*0x9E3779B97F4A7C15 + 0x1234567} }
+// NewRand derives the initial state from the seed through one finaliser round, so that
+// the streams of neighbouring seeds (VERIF_SEED=1,2,…, thorough shards) are unrelated
+// rather than shifted copies of each other.
+func NewRand(seed uint64) *Rand {
+	z := seed + 0x9E3779B97F4A7C15
+	z = (z ^ (z >> 30)) * 0xBF58476D1CE4E5B9
+	z = (z ^ (z >> 27)) * 0x94D049BB133111EB
+	return &Rand{s: z ^ (z >> 31)}
+}
 
 func (r *Rand) Uint64() uint64 {
 	r.s += 0x9E3779B97F4A7C15
